@@ -442,8 +442,12 @@ def run(chk):
     #    diagnostic) is computed for every TLC-enumerated behaviour and, in the quick tier, for the
     #    first 120 (thorough: 1500) random runs (the specification's big-step evaluation dominates the cost).
     nontriv = sum(nontrivial(pid, x) for x in runs)
-    n_drift = n_tlc + (1500 if thorough else 120)
-    parts = [(runs[:n_drift], {pid, 'DRIFT'}), (runs[n_drift:], {pid})]
+    cap = n_tlc if thorough else min(n_tlc, 450)        # quick tier: at most 450 TLC-enumerated behaviours get the (costly) DRIFT evaluation
+    nrd = 1500 if thorough else 120
+    with_drift = runs[:cap] + runs[n_tlc:n_tlc + nrd]
+    without = runs[cap:n_tlc] + runs[n_tlc + nrd:]
+    parts = [(with_drift, {pid, 'DRIFT'}), (without, {pid})]
+    chk.cov['drift_evaluated_runs'] = len(with_drift)
     bi = 0
     for part, want in parts:
       for b0 in range(0, len(part), 1500):
